@@ -181,6 +181,13 @@ pub fn pipeline_inputs() -> Vec<PInput> {
             }
         }
     }
+    // the same number of generators, again with exact ties, at other positions / in another order (whatever a worker
+    // keeps per generator *index* between builds is about other positions now)
+    let gshift: Vec<DVec3> = g.iter().map(|p| *p + v(1. / 16., -1. / 16., 1. / 32.)).collect();
+    inputs.push(h("H 3D 2x2x2 lattice shifted by (1/16,-1/16,1/32)", 3, false, v(0., 0., 0.), unit, gshift));
+    let mut grev = g.clone();
+    grev.reverse();
+    inputs.push(h("H 3D 2x2x2 lattice, reversed order", 3, false, v(0., 0., 0.), unit, grev));
     inputs.push(h("H 3D 2x2x2 lattice in the box [-1,2]^3", 3, false, v(-1., -1., -1.), v(3., 3., 3.), g.clone()));
     inputs.push(h("H 3D 2x2x2 lattice in the periodic box [0,1]^3", 3, true, v(0., 0., 0.), unit, g.clone()));
     // a single constructed cell (the same index and position, exact ties) in two different boxes: whatever a worker
